@@ -108,6 +108,9 @@ func ReadDataType(source io.Reader, version primitive.ProtocolVersion) (decoded 
 			return Uuid, nil
 		case primitive.DataTypeCodeVarchar:
 			return Varchar, nil
+		case primitive.DataTypeCodeText:
+			// protocol v1 and v2 list 0x000A "Text" next to 0x000D "Varchar"; both denote the same type
+			return Varchar, nil
 		case primitive.DataTypeCodeVarint:
 			return Varint, nil
 		case primitive.DataTypeCodeTimeuuid:
